@@ -137,21 +137,21 @@ pub fn hkind_for(cfg: &FCfg) -> BoxedStrategy<HKind> {
 }
 
 pub fn cuckoo_cfg() -> impl Strategy<Value = FCfg> {
-    (2usize..=8, 1u32..=5, prop_oneof![Just(2usize), Just(3), Just(4), Just(5), Just(8), Just(16), Just(32), Just(64)])
+    (2usize..=8, 1u32..=5, prop_oneof![Just(2usize), Just(3), Just(4), Just(5), Just(8), Just(16), Just(32), Just(63), Just(64), 2usize..=64])
         .prop_map(|(bucketsize, lg, l_fp)| FCfg::Cuckoo { bucketsize, n_buckets: 1 << lg, l_fp })
 }
 
 pub fn cuckoo_cfg_small() -> impl Strategy<Value = FCfg> {
-    (2usize..=4, 1u32..=3, prop_oneof![Just(2usize), Just(3), Just(4), Just(8), Just(64)])
+    (2usize..=4, 1u32..=3, prop_oneof![Just(2usize), Just(3), Just(4), Just(8), Just(64), 2usize..=64])
         .prop_map(|(bucketsize, lg, l_fp)| FCfg::Cuckoo { bucketsize, n_buckets: 1 << lg, l_fp })
 }
 
 pub fn quotient_cfg() -> impl Strategy<Value = FCfg> {
-    (1usize..=6, prop_oneof![Just(1usize), Just(2), Just(3), Just(8), Just(16), Just(58)]).prop_map(|(q, r)| FCfg::Quotient { q, r })
+    (1usize..=6, prop_oneof![Just(1usize), Just(2), Just(3), Just(8), Just(16), Just(58), Just(100usize), Just(101), 1usize..=58]).prop_map(|(q, r)| FCfg::Quotient { q, r: if r >= 100 { 64 - q - (r - 100) } else { r } })
 }
 
 pub fn quotient_cfg_small() -> impl Strategy<Value = FCfg> {
-    (1usize..=4, prop_oneof![Just(1usize), Just(2), Just(3), Just(8)]).prop_map(|(q, r)| FCfg::Quotient { q, r })
+    (1usize..=4, prop_oneof![3 => Just(1usize), 3 => Just(2), 3 => Just(3), 3 => Just(8), 1 => Just(100usize), 1 => Just(101), 2 => 1usize..=60]).prop_map(|(q, r)| FCfg::Quotient { q, r: if r >= 100 { 64 - q - (r - 100) } else { r } })
 }
 
 pub fn bloom_cfg() -> impl Strategy<Value = FCfg> {
